@@ -332,6 +332,10 @@ func (c *Ctx) Finish(rule string) {
 	if c.ReplayPath == "" {
 		b, _ := json.MarshalIndent(ev, "", " ")
 		p := filepath.Join(c.Dir, "evidence", c.ID+".json")
+		if d := os.Getenv("VERIF_EVIDENCE_DIR"); d != "" {
+			// runs against a deliberately changed tree (tools/seedtest.py) keep their evidence apart
+			p = filepath.Join(d, c.ID+".json")
+		}
 		os.MkdirAll(filepath.Dir(p), 0o755)
 		if err := os.WriteFile(p, append(b, '\n'), 0o644); err != nil {
 			fmt.Fprintln(os.Stderr, "cannot write evidence:", err)
